@@ -43,6 +43,8 @@ BackupsValid == \A p \in Parts : /\ NoDup(T.backups[p]) /\ SeqSet(T.backups[p]) 
 ExtraOwnersHoldData == \A p \in Parts : /\ \A j \in 1..(Len(T.owners[p]) - 1) : HoldsP(T.owners[p][j], p)
                                         /\ \A j \in 1..(Len(T.backups[p]) - Want) : HoldsB(T.backups[p][j], p)
 Balanced == \A m \in Live : Owned(m) <= LoadBound
+\* Members() of every client lists exactly the live members and flags exactly the oldest one as coordinator
+ListsOk == \A j \in 1..Len(Ev.lists) : SeqSet(Ev.lists[j].names) = Live /\ Len(Ev.lists[j].names) = N /\ Ev.lists[j].coordinators = <<Ev.members[1]>>
 CoordinatorOldest == Ev.coordinator = Ev.members[1] /\ \A j \in 1..Len(Ev.coordinators) : Ev.coordinators[j] = Ev.members[1]
 \* every key maps to the same partition and owner from every member and client
 KeysAgree == \A j \in 1..Len(Ev.keys) : LET k == Ev.keys[j] IN
@@ -59,6 +61,7 @@ Stable == /\ Ev.t = "stable" /\ UNCHANGED seq
              ELSE IF ~ExtraOwnersHoldData THEN Fail("a further listed owner holds no data for the partition")
              ELSE IF ~Balanced THEN Fail("a member owns more partitions than the load factor allows")
              ELSE IF ~CoordinatorOldest THEN Fail("the coordinator is not the oldest live member")
+             ELSE IF ~ListsOk THEN Fail("a client's member list is not the set of live members with the oldest one as coordinator")
              ELSE IF ~KeysAgree THEN Fail("a key maps to different partitions or owners")
              ELSE Ok
 Next == i <= Len(Trace) /\ i' = i + 1 /\ (Reset \/ Event \/ Stable)
